@@ -23,6 +23,7 @@ def check(prog, rep):
     model_ok = len(rep.rules) > n_rules and len(rep.deferred) == n_def
     if len(rep.deferred) > n_def:
         rep.deferred.pop()
+    rep.guarded(rule_polymer_atoms_are_ATOM, prog, rep)
     # ------------------------------------------------------------------ R1
     r1 = rep.rule("R1", "every bond is entered symmetrically on both atoms", floor=3)
     pb = prog.func("ligand/mol2.py", "Mol2Molecule.parse_bonds").node
@@ -335,3 +336,66 @@ def rule_model_molecules(prog, rep):
         rr.add(f"radius|{label}", got == want, f"{label}: radius {got} (expected {want})", wr)
     if run is not None:
         r.info["methods_interpreted"] = sorted(set(run.calls))
+
+
+def rule_polymer_atoms_are_ATOM(prog, rep):
+    """The ligand block tells polymer residues from hetero groups by the record type of their atoms.  The residue constructors and
+    create_atom are evaluated on model records: whatever record type the input used, atoms of amino acids and nucleotides must come out
+    as ATOM (and so never receive ligand parameters); atoms of the generic ligand residue as HETATM."""
+    from ..guards import Flow, Obj
+    from ..objinterp import ObjRunner
+    r = rep.rule("R10", "residue constructors: polymer atoms are typed ATOM whatever the input record type (the ligand block relies on it); each atom name is held once", floor=8)
+    nt = prog.func("main.py", "non_trivial").node
+    relies = any(isinstance(n, ast.Compare) and ".type" in U(n.left) and U(n.comparators[0]) in ("'ATOM'", "'HETATM'") for n in ast.walk(nt))
+    r.info["ligand_block_tests_record_type"] = relies
+    if not relies:
+        return  # the block separates polymer from hetero groups some other way: R5/R6 decide it on the model complex
+
+    def record(cls, name, resname, k):
+        return Obj({"__class__": cls, "serial": k, "name": name, "alt_loc": "", "res_name": resname, "chain_id": "A", "res_seq": 15, "ins_code": "",
+                    "x": 1.0 * k, "y": 2.0, "z": 3.0, "occupancy": 1.0, "temp_factor": 0.0, "seg_id": "", "element": name[0], "charge": "", "mol2charge": None})
+
+    cases = [("ALA", "aa.py", "ALA", ["N", "CA", "C", "O", "CB"], "ATOM"), ("GLY", "aa.py", "GLY", ["N", "CA", "C", "O"], "ATOM"),
+             ("ADE", "na.py", "A", ["P", "O5'", "C5'", "N9"], "ATOM"), ("LIG", "aa.py", "LIG", ["C1", "O1"], "HETATM"),
+             ("Residue", "residue.py", "ACT", ["C", "O", "OXT", "CH3"], None)]
+    for cls, rel, resname, names, want in cases:
+        if prog.classes_by_name.get(cls) is None:
+            continue
+        for rectype in ("ATOM", "HETATM"):
+            recs = [record(rectype, n_, resname, k) for k, n_ in enumerate(names, start=1)]
+            # a second alternate location of the first two atoms, better occupied than the first (the first listed one is kept: C07)
+            for k, n_ in enumerate(names[:2]):
+                alt = record(rectype, n_, resname, 50 + k)
+                alt["alt_loc"], alt["occupancy"], alt["x"] = "B", 1.0, 77.0
+                recs[k]["alt_loc"], recs[k]["occupancy"] = "A", 0.4
+                recs.append(alt)
+            ref = Obj({"__class__": "DefinitionResidue", "name": resname, "altnames": {}, "map": {n_: Obj({"__class__": "DefinitionAtom", "name": n_, "bonds": []}) for n_ in names}})
+
+            def extra(runner, interp, call, args, kw):
+                if isinstance(call.func, ast.Attribute) and call.func.attr == "record_type" and not args:
+                    recv = interp.ev(call.func.value)
+                    if isinstance(recv, dict) and recv.get("__class__") in ("ATOM", "HETATM"):
+                        return recv["__class__"]
+                return NotImplemented
+
+            run = ObjRunner(prog, rel, extra_hook=extra)
+            where = f"pdb2pqr/{rel} ({cls}.__init__ / create_atom)"
+            try:
+                if cls == "Residue":
+                    res = run.new(cls, recs)
+                else:
+                    res = run.new(cls, recs, ref)
+                    run.call(res, "create_atom", "HX", [0.0, 0.0, 0.0])
+            except Flow as fl:
+                r.bad(f"type|{cls}|input {rectype}", f"{cls}(...) stops with {fl.value} on model {rectype} records", where)
+                continue
+            types = sorted({a.get("type") for a in res["atoms"]})
+            want_ = [want or rectype]
+            r.add(f"type|{cls}|input {rectype}", types == want_, f"{cls} built from {rectype} records (+ one created atom): atom types {types}, expected {want_}",
+                  where)
+            got_names = [a.get("name") for a in res["atoms"] if a.get("name") != "HX"]
+            first_kept = all(a.get("x") != 77.0 for a in res["atoms"])
+            r.add(f"once|{cls}|input {rectype}", sorted(got_names) == sorted(names) and first_kept,
+                  f"{cls} built from records with two alternate locations of {names[:2]}: atoms {got_names}" +
+                  ("" if sorted(got_names) == sorted(names) else " - an atom is held twice, so it is parameterised and written twice") +
+                  ("" if first_kept else " - a later alternate location replaced the first"), where)
